@@ -50,9 +50,20 @@ let rec split_threads (toks : string list) : string list list * string list =
 
 let judge _name ins outs =
   match ins with
-  | ("SEQ" | "HTTP") :: optoks ->
+  | ("SEQ" | "HTTP") :: optoks0 ->
+      (* refused handler calls are no operations on the log: they must answer
+         400 / 405 and are then dropped from the history given to the model *)
+      let refused = [("Zb", "h400"); ("Zm", "h405"); ("Em", "h405")] in
+      let pairs = (try List.combine optoks0 outs with Invalid_argument _ -> []) in
+      let bad_refusal = List.find_opt (fun (o, x) -> List.mem_assoc o refused && List.assoc o refused <> x) pairs in
+      let kept = List.filter (fun (o, _) -> not (List.mem_assoc o refused)) pairs in
+      let optoks = List.map (fun (o, _) -> if o = "Zp" then "X" else o) kept in
+      let outs = if pairs = [] then outs else List.map snd kept in
       let ops = List.map parse_op optoks in
-      (try
+      (match bad_refusal with
+       | Some (o, x) -> VPropfail ("refused_call_status", Printf.sprintf "op=%s got=%s" o x)
+       | None ->
+      try
          let obs = List.map parse_out outs in
          if c17_ok ops obs then begin
            if not (impl_agrees ops) then VDisagree "heap-model-differs-from-spec(theorem C17_refines broken?)"
